@@ -718,3 +718,72 @@ Definition terms (r : N) (tr : list out) : nat := length (filter (is_term r) tr)
 
 (* nothing is owed any more: no pending dial, no substream being opened, no future in flight *)
 Definition quiescent (s : pst) : Prop := dials s = [] /\ pouts s = [] /\ futs s = [].
+
+(* ------------------------------------------------------------------ the transport contract
+
+   What the environment (transport service, connections, remote peers, the clock) still owes the
+   protocol, computed from the stimuli, the resolved targets and the CALLS the protocol made
+   (ODial, OOpen, OBind) — never from the protocol's private maps:
+   - a dial that was accepted is owed ConnectionEstablished or DialFailure;
+   - an accepted open_substream is owed SubstreamOpened or SubstreamOpenFailure (a
+     ConnectionClosed of that peer discharges all of its opens);
+   - a carrier handed to a request future is owed an answer, an end of stream, or the passing of
+     the request timeout (counted from the hand-over, and again from the moment the request frame
+     went out); it is discharged once a terminal event for its request was seen. *)
+Record ghost := mkG {
+  g_now : N;
+  g_conn : list N;                 (* peers reported connected *)
+  g_dials : list N;                (* peers with an accepted, unanswered dial *)
+  g_opens : list (N * N);          (* (substream id, peer): accepted, unanswered open_substream *)
+  g_live : list (N * N * N)        (* (carrier, request id, deadline) *)
+}.
+Definition g0 : ghost := mkG 0 [] [] [] [].
+
+Definition o_dials (o : list out) : list N :=
+  flat_map (fun x => match x with ODial p => [p] | _ => [] end) o.
+Definition o_opens (o : list out) : list (N * N) :=
+  flat_map (fun x => match x with OOpen sid p => [(sid, p)] | _ => [] end) o.
+Definition o_binds (o : list out) : list (N * N) :=
+  flat_map (fun x => match x with OBind c rid => [(c, rid)] | _ => [] end) o.
+Definition o_terms (o : list out) : list N :=
+  flat_map (fun x => match x with OResp r _ _ => [r] | OFail r _ => [r] | _ => [] end) o.
+Definition o_wired (c : N) (o : list out) : bool :=
+  existsb (fun x => match x with OWire c' _ _ => c' =? c | _ => false end) o.
+
+Definition gstep (cf : cfg) (e : ev) (o : list out) (tg : option N) (g : ghost) : ghost :=
+  let now' := match e with EAdvance dt => g_now g + dt | _ => g_now g end in
+  let conn' := match e with
+               | EEstablished p _ _ => if memN p (g_conn g) then g_conn g else g_conn g ++ [p]
+               | EClosed p => filter (fun x => negb (x =? p)) (g_conn g)
+               | _ => g_conn g end in
+  let answered_dial := match e with
+                       | EDialFail p => [p]
+                       | EEstablished p _ _ => if memN p (g_conn g) then [] else [p]
+                       | _ => [] end in
+  let dials' := filter (fun x => negb (memN x answered_dial)) (g_dials g) ++ o_dials o in
+  let opens0 := match e, tg with
+                | EOpened _ _ _, Some sid | EOpenFail _ _, Some sid =>
+                    filter (fun x => negb (fst x =? sid)) (g_opens g)
+                | EClosed p, _ => if memN p (g_conn g) then filter (fun x => negb (snd x =? p)) (g_opens g)
+                                  else g_opens g
+                | _, _ => g_opens g end in
+  let opens' := opens0 ++ o_opens o in
+  let rearmed := match e, tg with
+                 | EUnblock _, Some c =>
+                     if o_wired c o
+                     then map (fun x => if fst (fst x) =? c then (c, snd (fst x), g_now g + tmo cf) else x) (g_live g)
+                     else g_live g
+                 | _, _ => g_live g end in
+  let live' := filter (fun x => negb (memN (snd (fst x)) (o_terms o)))
+                      (rearmed ++ map (fun b => (fst b, snd b, g_now g + tmo cf)) (o_binds o)) in
+  mkG now' conn' dials' opens' live'.
+
+Fixpoint grun (cf : cfg) (g : ghost) (l : list (ev * list out * option N)) : ghost :=
+  match l with
+  | [] => g
+  | (e, o, tg) :: t => grun cf (gstep cf e o tg g) t
+  end.
+
+(* the environment has discharged everything it owes *)
+Definition discharged (g : ghost) : Prop :=
+  g_dials g = [] /\ g_opens g = [] /\ forall x, In x (g_live g) -> snd x <= g_now g.
